@@ -248,22 +248,31 @@ Definition discb (l : list nat) : bool := discb_acc [] None l.
 
 Definition regions (ns : list node) : list nat := filter (is_region ns) (seq 0 (length ns)).
 
+(** nodes that may have children *)
+Definition is_container (ns : list node) (p : nat) : bool :=
+  match kind_of ns p with
+  | Some KModule | Some KFuncDefn | Some KDf | Some KCond => true
+  | _ => false
+  end.
+Definition containers (ns : list node) : list nat := filter (is_container ns) (seq 0 (length ns)).
+
 (** events of the tracking context that started when the table had [start] nodes *)
 Definition ctx_events (ns : list node) (start p : nat) : list nat :=
   events_range ns p start (length ns - start).
 
 Definition disciplined (ns : list node) (start : nat) : bool :=
-  forallb (fun p => discb (ctx_events ns start p)) (seq 0 (length ns)).
+  forallb (fun p => discb (ctx_events ns start p)) (containers ns).
 
 (** well-formed table: parents precede children, only the root is its own parent, effectful
-    nodes are not Input nodes, Input nodes have no children *)
+    nodes are not Input nodes, only containers (module, function definitions, dataflow parents,
+    Conditional/CFG) have children *)
 Definition wf_node (ns : list node) (i : nat) : bool :=
   match nth_error ns i with
   | None => false
   | Some x =>
     (Nat.eqb i 0 || Nat.ltb (n_parent x) i)
     && negb (n_eff x && kind_eqb (n_kind x) KInput)
-    && negb (match kind_of ns (n_parent x) with Some KInput => true | _ => false end)
+    && is_container ns (n_parent x)
   end.
 Definition wf (ns : list node) : bool := forallb (wf_node ns) (seq 0 (length ns)).
 
